@@ -655,6 +655,26 @@ def empty_like(x, dtype=None):
     return zeros_like(x, dtype)
 
 
+def ceil(x):
+    from .builtins_ import symceil
+    if isinstance(x, Sym):
+        return float(symceil(x)) if not isinstance(symceil(x), Sym) else symceil(x)
+    x = asarray(x)
+    if x.is_conc():
+        return _wrap(_np.ceil(x.real())) if x.ndim else _np.ceil(x.real())[()]
+    raise Inconclusive('ceil of a symbolic array')
+
+
+def floor(x):
+    from .builtins_ import symfloor
+    if isinstance(x, Sym):
+        return symfloor(x)
+    x = asarray(x)
+    if x.is_conc():
+        return _wrap(_np.floor(x.real())) if x.ndim else _np.floor(x.real())[()]
+    raise Inconclusive('floor of a symbolic array')
+
+
 def hypot(x, y):
     x, y = asarray(x), asarray(y)
     if not (x.is_conc() and y.is_conc()):
